@@ -32,7 +32,7 @@ ANCHORS = [
     "acnportal.algorithms.utils:infrastructure_constraints_feasible",
 ]
 REQUIRED = ["rel:rebuild", "rel:stations", "rel:constraints", "rel:sessions", "rel:all", "rel:shift", "sched:scripted",
-            "sched:uncontrolled", "sched:sorted", "sorted_runs_judged", "regime:binding-or-mixed-sign", "regime:hetero-voltage"]
+            "sched:uncontrolled", "sched:sorted", "sorted_runs_judged", "as_df_accessors_checked", "regime:binding-or-mixed-sign", "regime:hetero-voltage"]
 BUDGET_S = {"quick": 240, "thorough": 3000}
 
 
@@ -106,7 +106,19 @@ def run_one(d, order=None, cons_order=None, session_order=None, shift=0):
     probe.detach()
     T = sim.iteration
     ids = list(sim.network.station_ids)
+    # the labelled accessors must agree with the matrices, station by station
+    df_bad = None
+    try:
+        dfp, dfr = sim.pilot_signals_as_df(), sim.charging_rates_as_df()
+        for i, s in enumerate(ids):
+            if not (np.array_equal(np.asarray(dfp[s])[:T], sim.pilot_signals[i, :T]) and
+                    np.array_equal(np.asarray(dfr[s])[:T], sim.charging_rates[i, :T])):
+                df_bad = f"station {s}: *_as_df() column differs from the matrix row of that station (registration order {ids})"
+                break
+    except Exception as e:  # a raising accessor is reported by the caller as well
+        df_bad = f"as_df accessor raised {type(e).__name__}: {e}"
     out = {
+        "df_bad": df_bad,
         "T": T, "exc": repr(probe.exception) if probe.exception is not None else None,
         "pilots": {s: sim.pilot_signals[i, :T].copy() for i, s in enumerate(ids)},
         "rates": {s: sim.charging_rates[i, :T].copy() for i, s in enumerate(ids)},
@@ -174,6 +186,9 @@ def run_case(case, obs):
     obs.ev("sched:" + kind)
     base = run_one(d)
     obs.evals = 0
+    obs.ev("as_df_accessors_checked")
+    if base["df_bad"]:
+        obs.violate("as_df_accessor_mislabelled", base["df_bad"], scenario=d)
     if len({s["voltage"] for s in net["stations"]}) > 1:
         obs.regime("regime:hetero-voltage")
     mixed = any(v < 0 for c in net["constraints"] for v in c["coeffs"].values())
@@ -215,6 +230,8 @@ def run_case(case, obs):
         obs.ev("rel:" + name)
         if kind == "sorted":
             obs.ev("sorted_runs_judged")
+        if alt["df_bad"]:
+            obs.violate("as_df_accessor_mislabelled", f"{name} {kw}: " + alt["df_bad"], scenario=d, relation=name, params=kw)
         diff = compare(base, alt, exact=exact, shift=kw.get("shift", 0))
         ident = all(list(v) == list(range(len(v))) for kk, v in kw.items() if kk != "shift")
         if (name == "shift") or (not ident and n >= 2 and (m >= 1 or len({s["voltage"] for s in net["stations"]}) > 1)):
